@@ -36,6 +36,9 @@ type zvC28Cfg struct {
 	Wide    bool    `json:"wide,omitempty"` // thorough tier: both path identifiers for both prefixes
 	// NPeers: number of monitored neighbours (0 = 2). Neighbour n > 1 has host address n+1, the VRF and flavour of neighbour n%2.
 	NPeers int `json:"peers,omitempty"`
+	// IgnoreAS0: the receiver is configured to ignore peers in the AS of neighbour 0 (BMPReceiverConfig.IgnorePeerASNs);
+	// every neighbour then has an AS of its own. Ignored neighbours contribute nothing, the others are mirrored as ever.
+	IgnoreAS0 bool `json:"ignore_as_of_neighbour_0,omitempty"`
 }
 
 func (c zvC28Cfg) n() int {
@@ -91,6 +94,9 @@ func zvC28NewWorld(cfg zvC28Cfg) *zvC28World {
 			p.AS = 65001
 		} else {
 			p.AS = 65000 + uint32(host[n])
+		}
+		if cfg.IgnoreAS0 {
+			p.AS = 65001 + uint32(n)
 		}
 		if cfg.V6 {
 			p.Addr = zvBmpAddr6(host[n])
@@ -221,12 +227,14 @@ func (e zvC28Ev) String() string {
 
 type zvC28Model struct {
 	connected bool
-	up        []bool
+	up        []bool // up and not ignored: contributes routes
+	sess      []bool // peer-up received, no peer-down since (drives which events make sense)
+	ign       []bool
 	have      []map[int]bool
 }
 
 func zvC28NewModel(n int) *zvC28Model {
-	m := &zvC28Model{up: make([]bool, n), have: make([]map[int]bool, n)}
+	m := &zvC28Model{up: make([]bool, n), sess: make([]bool, n), ign: make([]bool, n), have: make([]map[int]bool, n)}
 	for i := range m.have {
 		m.have[i] = map[int]bool{}
 	}
@@ -238,7 +246,8 @@ func (m *zvC28Model) apply(w *zvC28World, e zvC28Ev) {
 	case "connect":
 		m.connected = true
 	case "up":
-		m.up[e.N] = true
+		m.sess[e.N] = true
+		m.up[e.N] = !m.ign[e.N]
 		m.have[e.N] = map[int]bool{}
 	case "ann":
 		m.have[e.N][e.S] = true
@@ -250,12 +259,12 @@ func (m *zvC28Model) apply(w *zvC28World, e zvC28Ev) {
 		delete(m.have[e.N], w.both[0])
 		delete(m.have[e.N], w.both[1])
 	case "down":
-		m.up[e.N] = false
+		m.up[e.N], m.sess[e.N] = false, false
 		m.have[e.N] = map[int]bool{}
 	case "term", "loss":
 		m.connected = false
 		for i := range m.up {
-			m.up[i], m.have[i] = false, map[int]bool{}
+			m.up[i], m.sess[i], m.have[i] = false, false, map[int]bool{}
 		}
 	}
 }
@@ -266,7 +275,7 @@ func (m *zvC28Model) enabled(w *zvC28World) []zvC28Ev {
 	}
 	out := []zvC28Ev{{K: "init"}, {K: "obs"}}
 	for n := 0; n < len(w.peers); n++ {
-		if !m.up[n] {
+		if !m.sess[n] {
 			out = append(out, zvC28Ev{K: "up", N: n})
 			continue
 		}
@@ -305,7 +314,7 @@ func (m *zvC28Model) String() string {
 			ss = append(ss, s)
 		}
 		sort.Ints(ss)
-		fmt.Fprintf(&sb, " n%d{up=%v %v}", n, m.up[n], ss)
+		fmt.Fprintf(&sb, " n%d{up=%v/%v %v}", n, m.up[n], m.sess[n], ss)
 	}
 	return sb.String()
 }
@@ -482,12 +491,19 @@ func zvC28Step(r *vh.Run, w *zvC28World, hist []zvC28Ev) (canon string, enabled 
 		}
 		r.Violation(sig, c, f, a...)
 	}
-	b, rt, err := zvBmpNewRouter(BMPReceiverConfig{})
+	rcfg := BMPReceiverConfig{}
+	if w.cfg.IgnoreAS0 {
+		rcfg.IgnorePeerASNs = []uint32{w.peers[0].AS}
+	}
+	b, rt, err := zvBmpNewRouter(rcfg)
 	if err != nil {
 		r.Fatalf("cannot construct the receiver: %v", err)
 	}
 	x := &zvC28Run{w: w, b: b, r: rt, hist: hist}
 	m := zvC28NewModel(len(w.peers))
+	if w.cfg.IgnoreAS0 {
+		m.ign[0] = true
+	}
 	last := "start"
 	if len(hist) > 0 {
 		last = hist[len(hist)-1].K
@@ -718,6 +734,15 @@ func zvC28Configs(thorough bool) []zvC28Cfg {
 					out = append(out, zvC28Cfg{Layout: layout, V6: v6, Post: post, AddPath: ap, Wide: thorough && ap})
 				}
 			}
+		}
+	}
+	// the receiver configured to ignore the AS of neighbour 0
+	for _, layout := range []string{"same_vrf", "same_addr", "disjoint"} {
+		for _, v6 := range []bool{false, true} {
+			if v6 && !thorough {
+				continue
+			}
+			out = append(out, zvC28Cfg{Layout: layout, V6: v6, Post: [2]bool{false, false}, IgnoreAS0: true})
 		}
 	}
 	return out
